@@ -53,6 +53,10 @@ var c20Templates = []string{
 	"{% case x %}{% when 1 %}one{% else %}other{% endcase %}!",
 	"{% assign q = x | plus: 1 %}{{ q }}{% unless false %}u{% endunless %}",
 	"{% include 'inc.html' %}after",
+	"{% tablerow i in (1..3) %}{{ i }}{% break %}{% endtablerow %}",
+	"{% tablerow i in (1..3) cols: 2 %}{% if i == 2 %}{% continue %}{% endif %}{{ i }}{% endtablerow %}x",
+	"{% for i in (1..3) %}{{ i }}{% if i == 2 %}{% break %}{% endif %}{% endfor %}y",
+	"{% for i in (1..2) %}{% tablerow j in (1..2) %}{{ j }}{% continue %}{% endtablerow %}{% endfor %}",
 }
 
 func c20Engine() *Engine {
